@@ -456,6 +456,7 @@ class Frame:
         self.raises = []
         self.loops = []
         self.effects = []   # (kind, target, value) for attribute stores etc.
+        self.ret_fields = []  # (pc, fields of self at an explicit return)
 
 
 MAX_DEPTH = 7
@@ -665,6 +666,27 @@ class Evaluator:
             self._stack.pop()
         if fell:
             fr.returns.append((list(pc), Const(None)))
+            if isinstance(self_obj, Obj):
+                fr.ret_fields.append((list(pc), dict(self_obj.fields)))
+        if isinstance(self_obj, Obj) and len(fr.ret_fields) > 1:
+            # the state of `self` at exit is the join over all exits (an early `return` after stores keeps them)
+            snaps = fr.ret_fields
+            pcs = [p_ for p_, _ in snaps]
+            k = 0
+            while all(len(p_) > k for p_ in pcs) and all(same(p_[k], pcs[0][k]) for p_ in pcs):
+                k += 1
+            merged = {}
+            for name in {n_ for _, f_ in snaps for n_ in f_}:
+                vals = [f_.get(name) for _, f_ in snaps]
+                if all(v_ is not None and (v_ is vals[0] or same(v_, vals[0])) for v_ in vals):
+                    merged[name] = vals[0]
+                    continue
+                val = vals[-1] if vals[-1] is not None else Unknown(f'{name} undefined on one path')
+                for (p_, _), v_ in zip(reversed(snaps[:-1]), reversed(vals[:-1])):
+                    val = mk_ite(self.conj(p_[k:]), v_ if v_ is not None else Unknown(f'{name} undefined on one path'), val)
+                merged[name] = val
+            self_obj.fields.clear()
+            self_obj.fields.update(merged)
         out = Outcome(fr.returns, fr.raises, env)
         out.fell_through = fell
         return out
@@ -715,6 +737,8 @@ class Evaluator:
         if isinstance(st, ast.Return):
             v = self.expr(st.value, env, fr) if st.value is not None else Const(None)
             fr.returns.append((list(pc), v))
+            if isinstance(fr.self_obj, Obj):
+                fr.ret_fields.append((list(pc), dict(fr.self_obj.fields)))
             return False
         if isinstance(st, ast.Raise):
             name = None
